@@ -632,6 +632,8 @@ func (w *wworld) restPatch() {
 	tj := jsonStr(target)
 	before := w.dbDigest()
 	base := runtime.NumGoroutine()
+	pubsBefore := len(w.e.mq.Published())
+	cmdBefore := w.e.fm.CmdCount()
 	type out struct {
 		resp *model.PatchMessage
 		err  error
@@ -649,6 +651,10 @@ func (w *wworld) restPatch() {
 	case <-time.After(8 * time.Second):
 		w.c.Violate("C19", "rest-patch-not-answered", fmt.Sprintf("PatchDocument(%s/%s) was not answered within 8s", col, key), w.desc)
 		panic("request not answered")
+	}
+	if mid := w.dbDigest(); len(mid.ops) > len(before.ops) {
+		// operations were stored: the handler's goroutine publishes and updates the snapshot after the answer
+		w.waitPost(col, pubsBefore, cmdBefore)
 	}
 	w.settle(base)
 	w.desc = append(w.desc, fmt.Sprintf("REST patch of %s/%s from %s to %s", col, key, jsonStr(cur), tj))
